@@ -1,7 +1,14 @@
 #!/bin/bash
-# runs every thorough tier once (evidence redirected), reporting wall time and verdicts
+# runs every thorough tier once (evidence redirected), reporting wall time and verdicts; LIMIT seconds per check (default 5400)
+LIMIT=${LIMIT:-5400}
 for c in "$@"; do
   d=/tmp/thorough/$c; mkdir -p $d; s=$(date +%s)
-  XSV_EVID_DIR=$d XSV_OUT_DIR=$d/out ./check $c --tier thorough > $d/log 2>&1; rc=$?
+  XSV_EVID_DIR=$d XSV_OUT_DIR=$d/out setsid ./check $c --tier thorough > $d/log 2>&1 &
+  pid=$!; rc=""
+  while kill -0 $pid 2>/dev/null; do
+    if [ $(( $(date +%s) - s )) -gt $LIMIT ]; then kill -TERM -- -$pid 2>/dev/null; sleep 2; kill -KILL -- -$pid 2>/dev/null; rc=TIMEOUT; break; fi
+    sleep 5
+  done
+  [ -z "$rc" ] && { wait $pid; rc=$?; }
   echo "THOROUGH $c rc=$rc wall=$(( $(date +%s) - s ))s violations=$(grep -c '^VIOLATION' $d/log) $(grep -m1 '^\[check\]   ' $d/log | cut -c1-200)"
 done
